@@ -28,13 +28,22 @@ def run(m):
         fired = [l for l in out.splitlines() if l.startswith(('VIOLATED rule=', 'UNDECIDED rule='))]
         rules = sorted({l.split('rule=')[1].split()[0] for l in fired})
         exp = m['expect']
+        if m.get('benign'):
+            return m, ('silent' if not rules else 'FALSE-ALARM'), rules
         ok = any(r_ == exp or r_.startswith(exp) for r_ in rules)
         return m, ('caught' if ok else ('other-rule' if rules else 'MISSED')), rules
+# benign edits: behaviour-preserving changes on which no check may raise an alarm
+if not want or 'benign' in want:
+    for m in json.load(open(os.path.join(V, 'mutants', 'benign.json'))):
+        for pr in m['props']:
+            muts.append(dict(m, property=pr, expect='', id=m['id'] + '@' + pr, benign=True))
+    if 'benign' in want:
+        muts = [m for m in muts if m.get('benign')]
 bad = 0
 with cf.ThreadPoolExecutor(max_workers=6) as ex:
     for m, st, info in ex.map(run, muts):
         print(f"{st:10s} {m['id']:34s} {m['property']} expect={m['expect']:8s} fired={info}")
-        if st in ('MISSED', 'other-rule', 'nocompile'):
+        if st in ('MISSED', 'other-rule', 'nocompile', 'FALSE-ALARM'):
             bad += 1
 print(f"{len(muts)} mutants, {bad} not caught as expected")
 sys.exit(1 if bad else 0)
